@@ -24,8 +24,9 @@ type raceCfg struct {
 }
 
 type RReq struct {
-	Id  int64
-	Out int64
+	Id   int64
+	Out  int64
+	Flag bool // the rules return only for requests that ask for it: other requests are handed an EMPTY result map
 }
 
 type RTouch struct{ n int64 }
@@ -37,7 +38,7 @@ func (t *RTouch) Touch() int64 { return 1 }
 func raceRules(ver int) string {
 	s := ""
 	for i, n := range []string{"pa", "pb", "pc", "pd"} {
-		s += fmt.Sprintf("rule \"%s\" \"v%d\" salience %d begin\n  loc = Req.Id\n  obj = Mk()\n  conc {\n    x = loc + 1\n    obj.Touch()\n    y = loc + 2\n    obj.Touch()\n    z = Req.Id\n    w = 3\n  }\n  return %d + x + y\nend\n", n, ver, 9-2*i, ver*1000)
+		s += fmt.Sprintf("rule \"%s\" \"v%d\" salience %d begin\n  loc = Req.Id\n  obj = Mk()\n  conc {\n    x = loc + 1\n    obj.Touch()\n    y = loc + 2\n    obj.Touch()\n    z = Req.Id\n    w = 3\n  }\n  if Req.Flag {\n    return %d + x + y\n  }\nend\n", n, ver, 9-2*i, ver*1000)
 	}
 	return s
 }
@@ -69,6 +70,9 @@ func init() {
 			go func(c int) {
 				defer wg.Done()
 				i := 0
+				// the maps handed back belong to this client: it keeps the last few and reads them again and again
+				var held []map[string]interface{}
+				var m map[string]interface{}
 				for {
 					select {
 					case <-stop:
@@ -76,28 +80,42 @@ func init() {
 					default:
 					}
 					i++
-					data := map[string]interface{}{"Req": &RReq{Id: int64(c*100000 + i)}}
+					data := map[string]interface{}{"Req": &RReq{Id: int64(c*100000 + i), Flag: i%3 != 0}}
+					m = nil
 					switch i % 9 {
 					case 0:
-						gp.Execute(data, true)
+						_, m = gp.Execute(data, true)
 					case 1:
-						gp.ExecuteConcurrent(data)
+						_, m = gp.ExecuteConcurrent(data)
 					case 2:
-						gp.ExecuteMixModel(data)
+						_, m = gp.ExecuteMixModel(data)
 					case 3:
-						gp.ExecuteInverseMixModel(data)
+						_, m = gp.ExecuteInverseMixModel(data)
 					case 4:
-						gp.ExecuteNSortMConcurrent(1, 2, true, data)
+						_, m = gp.ExecuteNSortMConcurrent(1, 2, true, data)
 					case 5:
-						gp.ExecuteDAGModel([][]string{{"pa", "pb"}, {"pc"}}, data)
+						_, m = gp.ExecuteDAGModel([][]string{{"pa", "pb"}, {"pc"}}, data)
 					case 6:
-						gp.ExecuteSelectedRulesConcurrent(data, names)
+						_, m = gp.ExecuteSelectedRulesConcurrent(data, names)
 					case 7:
-						gp.ExecuteRulesWithMultiInputWithSpecifiedEM(data)
+						_, m = gp.ExecuteRulesWithMultiInputWithSpecifiedEM(data)
 					case 8:
-						gp.ExecuteSelectedWithSpecifiedEM(data, names)
+						_, m = gp.ExecuteSelectedWithSpecifiedEM(data, names)
 					}
 					atomic.AddInt64(&calls, 1)
+					if m != nil {
+						held = append(held, m)
+						if len(held) > 6 {
+							held = held[1:]
+						}
+					}
+					n := 0
+					for _, hm := range held {
+						for range hm {
+							n++
+						}
+					}
+					_ = n
 				}
 			}(c)
 		}
